@@ -148,10 +148,21 @@ SoftRemove(u, item, names) ==
 \* not a sentence and must be rejected (so such strings are judged strictly even among the random ones)
 AlienByte(c) == ~(IsWord(c) \/ IsWS(c) \/ c \in {35, 58, 46, 44, 40, 41, 91, 93, 60, 62, 61, 43, 45})
 HasAlien(bytes) == \E i \in DOMAIN bytes : AlienByte(bytes[i])
+\* size(:v), the size of a value placeholder: DynamoDB's grammar says size(path), the code evaluates it, the properties are
+\* silent.  In a condition the tokens  size ( :v )  are read as the operand :v and, if the string is then a sentence, only
+\* totality is demanded (any outcome); if it is still not a sentence it must be rejected like any other.
+RECURSIVE RewriteSV(_)
+RewriteSV(ts) ==
+  IF ts = <<>> THEN <<>>
+  ELSE IF Len(ts) >= 4 /\ IsFn(ts, 1, "size") /\ Tok(ts, 3) = "VALUE" /\ Tok(ts, 4) = ")"
+       THEN <<ts[3]>> \o RewriteSV(SubSeq(ts, 5, Len(ts)))
+       ELSE <<ts[1]>> \o RewriteSV(Tail(ts))
 TextFails(e) ==
-  LET ts == Lex(e.text)
-      strict == e.strict \/ HasAlien(e.text)
+  LET ts0 == Lex(e.text)
       cond == e.op = "MatchText"
+      ts == IF cond THEN RewriteSV(ts0) ELSE ts0
+      sizeOfValue == ts # ts0
+      strict == e.strict \/ HasAlien(e.text)
       pr == IF cond THEN ParseCond(ts) ELSE ParseUpdate(ts)
       usedN == IF ~pr.ok THEN {} ELSE IF cond THEN CondNames(pr.ast) ELSE UpdNames(pr.ast)
       usedV == IF ~pr.ok THEN {} ELSE IF cond THEN CondVals(pr.ast) ELSE UpdVals(pr.ast)
@@ -170,6 +181,7 @@ TextFails(e) ==
              ELSE IF fnAsAttr THEN {}
              ELSE IF reservedUse THEN (IF strict /\ ~isErr THEN { ch \o ".Reserved" } ELSE {})
              ELSE IF oddCase /\ isErr THEN {}
+             ELSE IF sizeOfValue THEN {}
              ELSE IF ~cond /\ pr.rep /\ isErr THEN {}     \* repeated clause keyword: rejected, or applied as if merged (D.3)
              ELSE IF cond
              THEN LET allowed == allowedC IN
